@@ -85,7 +85,7 @@ def instances(tier, prop):
         out.append({"kind": "box9", "op": "dihedral", "wrap": wr, "_cost": 3000 * 700 ** (len(wr) - 1), "_splitbits": sb})
         if len(wr) == 1:
             for m in ((1, -2) if q else (-2, -1, 1, 2)):
-                for atom in ((0, 3) if q else (0, 1, 2, 3)):
+                for atom in ((0, 1, 3) if q else (0, 1, 2, 3)):
                     out.append({"kind": "image", "op": "dihedral", "axis": wr[0], "m": m, "atom": atom, "wrap": wr, "_cost": 6000})
     for sym in ((0, 3) if q else range(6)):
         out.append({"kind": "translate", "op": "puckering", "periodic": False, "box": 3, "sym": sym, "_cost": 5000})
